@@ -284,7 +284,14 @@ def fam_rebase(g, kind="plain"):
     yield g.git("checkout", "-q", "feat")
     before = g.head()
     if kind == "plain":
-        yield g.git("rebase", base_branch, rewrite=True)
+        # the spellings that replay the same commits: forced, on the old base, with the am backend, ...
+        extra = rng.choice([[], [], [], [], ["--no-ff"], ["--keep-base", "-f"], ["--apply"], ["--rebase-merges"],
+                            ["--committer-date-is-author-date"], ["--reapply-cherry-picks"], ["--keep-base", "--no-ff"]])
+        if after_abort:
+            extra = []
+        if extra:
+            g.ex.probe("rebase.opt." + extra[0].lstrip("-"))
+        yield g.git("rebase", *extra, base_branch, rewrite=True)
     elif kind == "onto":
         # rebase only the last k commits of feat onto base_branch
         k = rng.randint(1, n)
@@ -299,7 +306,10 @@ def fam_rebase(g, kind="plain"):
             plans = [p for p in plans if not p.startswith("drop")]
         plan = rng.choice(plans)
         g.ex.probe("rebase_i." + plan.split(":")[0])
-        yield g.git("rebase", "-i", base_branch, env=g.seq_env(plan), rewrite=True, plan=plan)
+        extra = rng.choice([[], [], [], ["--keep-base"], ["--keep-base"], ["--rebase-merges"]])
+        if extra:
+            g.ex.probe("rebase_i.opt." + extra[0].lstrip("-"))
+        yield g.git("rebase", "-i", *extra, base_branch, env=g.seq_env(plan), rewrite=True, plan=plan)
         if g.in_progress() == "rebase" and not g.has_conflicts() and plan.startswith("edit"):
             # stopped for editing: amend with an AI or human change, then continue
             if not g.gated("rebase_edit_amend"):
@@ -495,6 +505,43 @@ def fam_stash(g):
         yield {"op": "resolve", "strategy": "union", "dt": g.dt(), "relax": "one_sided"}
         yield g.git("reset", "-q")
     yield from g.commit_all()
+
+
+def fam_stash_two(g):
+    """two stash entries (AI work and a person's work on the same lines of one file), a commit in between, then one
+    of them is restored under one of the names git accepts for a stash entry"""
+    rng = g.rng
+    files = g.worktree_files()
+    path = rng.choice(files) if files else None
+    ai_first = rng.random() < 0.5
+    for k in range(2):
+        if (k == 0) == ai_first:
+            yield g.ai_edit(path=path, kinds=["insert"], pos="top")
+        else:
+            yield g.human_edit(path=path, kinds=["insert"], pos="top", pre_ckpt=True, max_block=4)
+        yield g.git("stash", "push", "-q", rewrite=True)
+    yield g.human_edit(new_file=True)
+    yield from g.commit_all()
+    n = rng.choice([0, 1, 1])
+    sha = g.w.raw_git(g.repo, "rev-parse", "stash@{%d}" % n).out.strip()
+    name = rng.choice(["stash@{%d}" % n, str(n), "refs/stash@{%d}" % n, sha] if n else ["stash@{0}", "0", None, "refs/stash@{0}"])
+    g.ex.probe("stash_two.name." + ("sha" if name == sha else "none" if name is None else "index" if name.isdigit() else
+                                    "refs" if name.startswith("refs/") else "stash_at"))
+    verb = "pop" if name != sha else "apply"
+    yield g.git("stash", verb, "-q", *([name] if name else []), rewrite=True)
+    if g.has_conflicts():
+        yield {"op": "resolve", "strategy": "union", "dt": g.dt(), "relax": "one_sided"}
+        yield g.git("reset", "-q")
+    yield from g.commit_all()
+    if rng.random() < 0.5:
+        # and the other entry afterwards: both inserted at the top of the file, so this one may stop on a conflict
+        yield g.git("stash", "pop", "-q", rewrite=True)
+        if g.has_conflicts():
+            g.ex.probe("stash.pop_conflict")
+            yield {"op": "resolve", "strategy": "union", "dt": g.dt(), "relax": "one_sided"}
+            yield g.git("reset", "-q")
+            yield g.git("stash", "drop", "-q")
+        yield from g.commit_all()
 
 
 def fam_switch_carry(g):
@@ -1188,6 +1235,7 @@ FAMILIES = {
     "partial_amend": fam_partial_amend,
     "two_file_report": fam_two_file_report,
     "worktree_rebases": fam_worktree_rebases,
+    "stash_two": fam_stash_two,
 }
 
 # families whose outcome no property promises two-sidedly (a reverted-and-restored or renamed line)
